@@ -152,6 +152,7 @@ static int load_side_keys(world_t *w, int side)
         psTls13SessionParams_t sp;
         memset(&sp, 0, sizeof(sp));
         sp.maxEarlyData = c->early_data ? 16384 : 0;
+        sp.cipherId = c->early_data ? TLS_AES_128_GCM_SHA256 : 0;
         rc = matrixSslLoadTls13Psk(k, g_tls13_test_psk_256, 32, g_tls13_test_psk_id_sha256,
                 sizeof(g_tls13_test_psk_id_sha256), &sp);
         break;
@@ -247,6 +248,14 @@ int world_new_sessions(world_t *w)
     memset(&co, 0, sizeof(co));
     so.versionFlag = ver_flag(c->ver);
     co.versionFlag = ver_flag(cver);
+    if (cver == V_MULTI)
+    {
+        static const psProtocolVersion_t all[] = { v_tls_1_3, v_tls_1_2, v_tls_1_1 };
+        if (matrixSslSessOptsSetClientTlsVersions(&co, all, 3) < 0)
+        {
+            return -1;
+        }
+    }
     so.userPtr = &w->s[1];
     co.userPtr = &w->s[0];
     if (c->tickets)
@@ -332,7 +341,7 @@ void world_free_sessions(world_t *w)
         world_wire_clear(w, i);
         w->s[i].complete = w->s[i].closed = w->s[i].err_rc = 0;
         w->s[i].got_alert_lvl = w->s[i].got_alert_desc = 0;
-        w->s[i].n_deliveries = 0;
+        w->s[i].n_deliveries = w->s[i].deliv_incomplete = 0;
         buf_clear(&w->s[i].delivered);
         buf_clear(&w->s[i].submitted);
     }
@@ -523,6 +532,10 @@ int world_feed(world_t *w, int side, const unsigned char *p, int len)
                 if (comp)
                 {
                     s->complete = 1;
+                }
+                else
+                {
+                    s->deliv_incomplete++;
                 }
                 rc = matrixSslProcessedData(s->ssl, &pt, &ptlen);
                 continue;
